@@ -204,7 +204,18 @@ def bypass(S, cfg):
     for b in range(nb):
         names += [f'Tb[{b},{c}]' for c in range(nd)]
         atoms += list(rr.temp['coolant_byp'][b])
-    if ca:
+    adiabatic = cfg.get('adiabatic', False)
+    if adiabatic:
+        # adiabatic outer wall (no inter-assembly gap): RoddedRegion.calculate solves the walls first, from the
+        # previous-level coolant and bypass temperatures, so the operator is the composite  wall solve o bypass update
+        # on interior-coolant, bypass temperatures and wall heating
+        nsc_int = rr.subchannel.n_sc['coolant']['total']
+        p_duct = S.vec('pduct', rr.n_duct * nd, 'real', 0.0, 5e4)
+        T_gap = S.vec('Tgap', nd, 'pos', 600.0, 900.0)
+        h_gap = S.vec('hgap', 2, 'pos', 1e4, 1e5)
+        names += S.names('Tc', nsc_int) + S.names('pduct', rr.n_duct * nd)
+        atoms += list(rr.temp['coolant_int']) + list(p_duct)
+    elif ca:
         for i in range(rr.n_duct):
             names += [f'Tmw[{i},{c}]' for c in range(nd)]
             atoms += list(rr.temp['duct_mw'][i])
@@ -222,7 +233,11 @@ def bypass(S, cfg):
             tb[b] = arr[p:p + nd]
             p += nd
         rr.temp['coolant_byp'] = tb
-        if ca:
+        if adiabatic:
+            rr.temp['coolant_int'] = arr[p:p + nsc_int].copy()
+            p += nsc_int
+            rr._calc_duct_temp(arr[p:p + rr.n_duct * nd], T_gap, h_gap, True)
+        elif ca:
             for i in range(rr.n_duct):
                 rr.temp['duct_mw'][i] = arr[p:p + nd]
                 p += nd
@@ -251,7 +266,7 @@ def bypass(S, cfg):
         return f
     cons = ['_cons6_66', '_cons6_67', '_cons6_77', '_cons7_66', '_cons7_77']
     with patched(*[(RR, c, recorder(c)) for c in cons], (RR, 'min', sym_min)):
-        limit, code = RR._calculate_byp_dz(rr, None)
+        limit, code = RR._calculate_byp_dz(rr, 'outer_byp' if adiabatic else None)
     typ = rr.subchannel.type
     nc = rr.subchannel.n_sc['coolant']['total']
     for b in range(nb):
@@ -263,11 +278,11 @@ def bypass(S, cfg):
             t_me = int(typ[start + c])
             nbt = [int(typ[j]) for j in rr.subchannel.sc_adj[start + c] if j >= 0 and typ[j] >= 5]
             cls = f'{t_me + 1}-' + ''.join(sorted(str(t + 1) for t in nbt))
-            S.eq(f'op.rowsum[b{b},{c}]', sum(w.values()), 1)
+            S.eq(f'op.rowsum[b{b},{c}]', sum(v for k, v in w.items() if not k.startswith('pduct')), 1)
             S.eq(f'op.no_constant[b{b},{c}]', const, 0, scale=1e3)
             for k in w:
                 if k != me:
-                    S.le(f'op.offdiag[b{b},{c},{k}]', 0, w[k], scale=1.0)
+                    S.le(f'op.{"heating" if k.startswith("pduct") else "offdiag"}[b{b},{c},{k}]', 0, w[k], scale=1.0)
             if cls not in rec or len(rec[cls]) <= b:
                 S.holds(f'limit.covers_class[b{b},{c}:{cls}]', False)
                 continue
@@ -637,6 +652,8 @@ def configs(tier):
         out.append((bypass, dict(n_ring=n, n_duct=2)))
     out.append((bypass, dict(n_ring=3, n_duct=2, conv_approx=True)))
     out.append((bypass, dict(n_ring=2, n_duct=3)))
+    out.append((bypass, dict(n_ring=2, n_duct=2, adiabatic=True)))
+    out.append((bypass, dict(n_ring=3, n_duct=2, adiabatic=True)))
     out.append((stagnant, dict(n_ring=2)))
     for model in ('simple', '6node'):
         out.append((unrodded, dict(model=model)))
